@@ -168,6 +168,8 @@ def check(tier: str) -> Result:
     for o in r1.obligations:
         if o.rule == "C01.R6":
             res.add("C10.R3", o.site, o.func, o.construct, o.ok, o.detail, nontrivial=o.nontrivial)
+    from . import wiring
+    n_w = wiring.add_obligations(res, tree, "C10.R5", lambda ci: ci.module.name.endswith(".generator") and ci.module.name.startswith("jumanji.environments."))
     # ------------------------------------------------------------------ R4 axis-kind consistency inside generators
     from . import axis_rules
     n_axis = axis_rules.add_obligations(res, tree, "C10.R4", scope="generator")
